@@ -20,7 +20,7 @@ def main():
             out.append({"__exc__": "restore: " + type(e).__name__})
             continue
         for cont in conts:
-            m = copy.deepcopy(mab)
+            m = pickle.loads(blob)            # one restore per continuation: no copy of the restored object involved
             exc = None
             for op in cont:
                 try:
@@ -28,7 +28,15 @@ def main():
                 except Exception as e:                        # noqa: BLE001
                     exc = type(e).__name__
                     break
-            res.append({"__exc__": exc} if exc else ops.observe(m, qs))
+            if exc:
+                res.append({"__exc__": exc})
+            else:
+                o = []
+                for q in qs:
+                    o.append(ops.call(m, "predict", q))
+                    o.append(ops.call(m, "predict_expectations", q))
+                o.append(ops.norm(list(m.arms)))
+                res.append(o)
         out.append(res)
     pickle.dump(out, open(sys.argv[2], "wb"))
 
